@@ -258,13 +258,17 @@ Qed.
 Lemma all_sufficient_ok_gen : all_sufficient_ok chain_gen uses_gen = true.
 Proof. vm_compute. reflexivity. Qed.
 
+Lemma all_sufficient_ok_sound : forall t u, all_sufficient_ok t u = true ->
+  forall m order en, In m (u_methods u) -> valid_chain order en -> sufficient_ok t u m order en = true.
+Proof.
+  intros t u H m order en Hm Hv. unfold all_sufficient_ok in H.
+  rewrite forallb_forall in H. specialize (H m Hm).
+  exact (over_all_chains (sufficient_ok t u m) H order en Hv).
+Qed.
+
 Lemma sufficient_at : forall m order en, In m (u_methods uses_gen) -> valid_chain order en ->
   sufficient_ok chain_gen uses_gen m order en = true.
-Proof.
-  intros m order en Hm Hv. pose proof all_sufficient_ok_gen as H. unfold all_sufficient_ok in H.
-  rewrite forallb_forall in H. specialize (H m Hm).
-  exact (over_all_chains (sufficient_ok chain_gen uses_gen m) H order en Hv).
-Qed.
+Proof. exact (all_sufficient_ok_sound chain_gen uses_gen all_sufficient_ok_gen). Qed.
 
 Theorem declared_sufficient_proof : forall m order en, In m (u_methods uses_gen) -> valid_chain order en ->
   (en = ByMatrix \/ forall k, In k (declared uses_gen m) -> In k order) ->
@@ -310,24 +314,39 @@ Definition all_calls_allowed (t : chain_tables) (u : uses_tables) : bool :=
 Lemma all_calls_allowed_gen : all_calls_allowed chain_gen uses_gen = true.
 Proof. vm_compute. reflexivity. Qed.
 
-Theorem only_declared_called_proof : forall m order en k f, In m (u_methods uses_gen) -> valid_chain order en ->
-  In (k, f) (may_call chain_gen uses_gen m order en) ->
+Lemma call_allowed_sound : forall u m order en k f, call_allowed u m order en (k, f) = true ->
   (en = ByMatrix \/ In k order) /\
-  (In k (declared uses_gen m) \/ (k = Feat /\ f = "dimension")) /\
+  (In k (declared u m) \/ (k = Feat /\ f = "dimension")) /\
   (f = role_function k \/ (k = Feat /\ f = "dimension")).
 Proof.
-  intros m order en k f Hm Hv Hin. pose proof all_calls_allowed_gen as H. unfold all_calls_allowed in H.
-  rewrite forallb_forall in H. specialize (H m Hm).
-  pose proof (over_all_chains (fun o e => forallb (call_allowed uses_gen m o e) (may_call chain_gen uses_gen m o e))
-                              H order en Hv) as H'. simpl in H'.
-  rewrite forallb_forall in H'. specialize (H' (k, f) Hin). unfold call_allowed in H'.
-  apply andb_true_iff in H' as [H12 H3]. apply andb_true_iff in H12 as [H1 H2].
+  intros u m order en k f H. unfold call_allowed in H.
+  apply andb_true_iff in H as [H12 H3]. apply andb_true_iff in H12 as [H1 H2].
   split; [|split].
   - apply orb_true_iff in H1 as [H1|H1]; [left; destruct en; try discriminate; reflexivity | right; apply kmem_In; exact H1].
   - apply orb_true_iff in H2 as [H2|H2]; [left; apply kmem_In; exact H2|].
     right. apply andb_true_iff in H2 as [Ha Hb]. apply kind_eqb_eq in Ha. apply String.eqb_eq in Hb. auto.
   - apply orb_true_iff in H3 as [H3|H3]; [left; apply String.eqb_eq; exact H3|].
     right. apply andb_true_iff in H3 as [Ha Hb]. apply kind_eqb_eq in Ha. apply String.eqb_eq in Hb. auto.
+Qed.
+
+Lemma all_calls_allowed_sound : forall t u, all_calls_allowed t u = true ->
+  forall m order en c, In m (u_methods u) -> valid_chain order en -> In c (may_call t u m order en) ->
+  call_allowed u m order en c = true.
+Proof.
+  intros t u H m order en c Hm Hv Hin. unfold all_calls_allowed in H.
+  rewrite forallb_forall in H. specialize (H m Hm).
+  pose proof (over_all_chains (fun o e => forallb (call_allowed u m o e) (may_call t u m o e)) H order en Hv) as H'.
+  cbv beta in H'. rewrite forallb_forall in H'. exact (H' c Hin).
+Qed.
+
+Theorem only_declared_called_proof : forall m order en k f, In m (u_methods uses_gen) -> valid_chain order en ->
+  In (k, f) (may_call chain_gen uses_gen m order en) ->
+  (en = ByMatrix \/ In k order) /\
+  (In k (declared uses_gen m) \/ (k = Feat /\ f = "dimension")) /\
+  (f = role_function k \/ (k = Feat /\ f = "dimension")).
+Proof.
+  intros m order en k f Hm Hv Hin. apply call_allowed_sound.
+  exact (all_calls_allowed_sound chain_gen uses_gen all_calls_allowed_gen m order en (k, f) Hm Hv Hin).
 Qed.
 
 (* ------------------------------------------------------------------ regression: the tree before the F13 repair *)
